@@ -93,7 +93,9 @@ GENERIC_STR = [
     # values that start with a dash without being numbers or options
     "--", "-.", "-", "-x", "--foo",
     # a literal dollar sign / tilde (API tokens, quoted paths)
-    "$HOME", "tok_${HOME}_1", "~user"
+    "$HOME", "tok_${HOME}_1", "~user",
+    # not ASCII (font names, labels)
+    "\uff2d\uff33 \u30b4\u30b7\u30c3\u30af", "Schriftgr\u00f6\u00dfe"
 ]
 NUM_TOKENS = [
     "0", "1", "2", "7", "10", "205", "0.5", "1.5", "2.25", "1e3", "1.5e-3",
